@@ -196,9 +196,34 @@ class C15Property:
             stats["instance_correspondence_disagreements"] = n_bad
         except (common.LeanRunError, Exception) as e:  # noqa: BLE001
             chk.broken_correspondence("pickle vs model", f"{type(e).__name__}: {str(e)[-600:]}")
+        # ---------------- raw outputs of the public expression-returning functions ("any expression the library builds")
+        try:
+            outs, report = corr.public_function_outputs()
+            stats["public_functions_called"] = len(report["called"])
+            stats["public_function_expressions"] = len(outs)
+            chk.info("public_functions", report)
+            for lab, e in outs:
+                chk.count(("function output", lab) if len(e.args) > 1 else None)
+                try:
+                    back = pickle.loads(pickle.dumps(e))  # noqa: S301
+                except Exception as exc:  # noqa: BLE001
+                    failing.append({"class": "pickle round trip raises", "cls": lab, "expr": sp.srepr(e)[:1200], "error": f"{type(exc).__name__}: {exc}"})
+                    continue
+                if back == e and sp.srepr(back) == sp.srepr(e) and not corr.attribute_differences(e, back):
+                    continue
+                # strictly classified: a purely structural difference of an evaluate=False node that disappears when both
+                # sides are re-evaluated is SymPy's unpickling behaviour (known finding); anything else is a violation
+                benign = (corr.has_unevaluated_node(e) and not corr.attribute_differences(e, back)
+                          and corr.reevaluate(back) == corr.reevaluate(e) and back.doit() == e.doit())
+                failing.append({"class": "unevaluated Mul/Add (evaluate=False) re-evaluated by SymPy on unpickling" if benign
+                                else "pickle round trip does not reproduce an expression returned by a public function",
+                                "function": lab, "expr": sp.srepr(e)[:1500], "loaded": sp.srepr(back)[:1500],
+                                "python": f"e = {lab.split('[')[0]}; pickle.loads(pickle.dumps(e)) == e"})
+        except Exception as e:  # noqa: BLE001
+            chk.broken_correspondence("public function stream", "".join(traceback.format_exception(e))[-1000:])
         # ---------------- formulated models
         models = []
-        for label, reaction, dyn, align in corr.MODEL_SPECS:
+        for label, reaction, dyn, align in corr.MODEL_SPECS:  # `align`: the builder options of the model
             try:
                 model = corr.build_model(reaction, dyn, align)
             except Exception as e:  # noqa: BLE001
@@ -248,7 +273,7 @@ class C15Property:
             sample = [("expr", o) for o in with_attrs[:40] + rest[:: max(1, len(rest) // 10)]]
             # numeric evaluation for the model with Breit-Wigner dynamics (non-SymPy attributes), the
             # others are loaded, inspected and their containers exercised
-            sample += [("model" if i == 1 else "model-shallow", m) for i, (_, m) in enumerate(models)]
+            sample += [("model" if i in (1, 5) else "model-shallow", m) for i, (_, m) in enumerate(models)]
         try:
             descs = corr.fresh_process_describe(sample)
             stats["fresh_process_objects"] = len(sample)
@@ -348,7 +373,12 @@ MANIFEST = {
         "as ordered association lists): deserialise(serialise x) = x (structural induction; the generated __new__ on the complete field "
         "tuple rebuilds the instance); decide-witness for the recursive (astuple) variant: EuclideanNorm(ThreeMomentum(p)) comes back as "
         "EuclideanNorm(Tuple(p)). Partial by nature: pickle's byte format, SymPy's __reduce_ex__ protocol, attrs' pickling of HelicityModel "
-        "(ordering converters) and qrules' ReactionInfo are executed, not modelled; 'numerically identical when evaluated' is checked on "
+        "(ordering converters) and qrules' ReactionInfo are executed, not modelled. 'Any expression the library builds' is additionally "
+        "covered by a stream over the raw outputs of every public expression-returning function of the package (39 functions/builders "
+        "today, found by introspection and called on symbols / a corpus reaction); on the unchanged tree one of them fails: "
+        "chew_mandelstam_s_wave returns a Mul built with evaluate=False, which SymPy re-evaluates on unpickling (KNOWN-FINDING; strictly "
+        "classified: only a structural difference of an evaluate=False node in a raw function output that vanishes on re-evaluation; the "
+        "same kind of difference inside a HelicityModel is a VIOLATION); 'numerically identical when evaluated' is checked on "
         "the real code (thorough: in a fresh interpreter), not proved."
     ),
     "level_note": (
@@ -357,8 +387,9 @@ MANIFEST = {
         "pickle, and the loaded object is compared with the model's round trip and with the original by ==, srepr, type and hash, then — because == "
         "goes through _hashable_content — by the VALUE of every non-SymPy attribute field by field (type; identity for classes/functions/None) "
         "and by what evaluate() of every node returns; every admissible picklable attribute value occurs in every run). Models: "
-        "4 formulated HelicityModels from corpus/C15 (no dynamics; Breit-Wigner with form factor and energy-dependent width = non-SymPy "
-        "attributes; canonical formalism; DalitzPlotDecomposition alignment) compared attribute by attribute (==, key order, srepr, attribute values of every node) and "
+        "11 formulated HelicityModels from corpus/C15 (no dynamics; Breit-Wigner with form factor and energy-dependent width = non-SymPy "
+        "attributes; canonical formalism; DalitzPlotDecomposition and AxisAngleAlignment; use_helicity_couplings (3 models); "
+        "scalar_initial_state_mass; stable_final_state_ids; non-default naming flags) compared attribute by attribute (==, key order, srepr, attribute values of every node) and "
         "behaviourally: the public API of every container (ParameterValues by symbol / name / index, in, len, iteration, items, assignment "
         "of the same value by symbol / name / index, missing keys; the OrderedDict attributes) gives the same outcome incl. exceptions on the "
         "loaded model. Also in the quick tier a FRESH interpreter loads all instances with attributes and the four models, reports attribute "
